@@ -33,7 +33,8 @@ MANIFEST = {
                 "its argument to _exit; setEnvironmentVariable = the model's function (POSIX setenv/unsetenv as primitives); the 3-argument "
                 "read (PropsSel.lean): fd_set handling, maxFd, the select loop with its continues, the FD_ISSET order and ::read translated and "
                 "proved equal to ReadSel.read3 for every object, request, length and select oracle, so the PropsRead theorems hold for the "
-                "current body (never a blocking ::read, -1 only as EINVAL, stdout first, ...).  A change of these C++ bodies changes the generated Lean "
+                "current body (never a blocking ::read, -1 only as EINVAL, stdout first, ...); daemonize (PropsDmn.lean) = Kernel.daemonizeFds for "
+                "every table and every answer of ::open / fork.  A change of these C++ bodies changes the generated Lean "
                 "definitions and the equality proofs fail; a construct outside the translated subset is refused (broken tie).  "
                 "PROVED about the model of the code, for all inputs: option tables x argument vectors (result sequence = getopt "
                 "conventions, no read outside the argument strings / option names, termination); command lines (tokenizer refinement, "
@@ -69,7 +70,7 @@ MANIFEST = {
                 "System calls of the translated Process-object functions: ::close / ::kill append to a trace, `waitpid(pid, &status, 0) != "
                 "(pid_t)pid` is one oracle-answered condition (waitpid returns the requested pid or -1), CSemProc.lean.  "
                 "Everything of Process.cpp OTHER than nextChar / read / the Arguments constructor / splitCommandLine / Process(), ~Process, "
-                "isRunning, kill, join, close, exit, the 2- and 3-argument read, write, setEnvironmentVariable (i.e. start, open, wait, interrupt, daemonize, getEnvironmentVariable(s), prepareEnv) is still a HAND translation into the model, validated by the "
+                "isRunning, kill, join, close, exit, the 2- and 3-argument read, write, setEnvironmentVariable, daemonize (i.e. start, open, wait, interrupt, getEnvironmentVariable(s), prepareEnv) is still a HAND translation into the model, validated by the "
                 "correspondence run, not proved.  A harmless restructuring of a translated body breaks the equality proof (reported as "
                 "'proof obligations / model tie no longer check' without failing input).  Checked-memory abstraction (one block per argv word / option name, the option table holds "
                 "null or NUL-free terminated names); Map iteration = ascending key order (C01).  'getopt rules' means the "
@@ -93,7 +94,7 @@ MANIFEST = {
     }
 }
 PROPS = ["Nstd.Args.Props", "Nstd.Args.PropsWait", "Nstd.Args.PropsRun", "Nstd.Args.PropsRead", "Nstd.Args.PropsFds",
-         "Nstd.Args.PropsCode", "Nstd.Args.PropsProc", "Nstd.Args.PropsSel", "Nstd.Args.PropsStr"]
+         "Nstd.Args.PropsCode", "Nstd.Args.PropsProc", "Nstd.Args.PropsSel", "Nstd.Args.PropsStr", "Nstd.Args.PropsDmn"]
 LEAN_TARGETS = PROPS + ["drv_args"]
 DRIVER = "drv_args"
 SOURCES = ["args.cpp", C.REPO / "src/String.cpp", C.REPO / "src/Memory.cpp", C.REPO / "src/Debug.cpp",
